@@ -174,6 +174,36 @@ theorem utility_reads_index_i {α} [NumOps α] (attributes : List String) (u : F
   have : "" ++ n ++ ("_" ++ toString i) = colKey "" n i := by simp [colKey, String.append_assoc]
   rw [this]
 
+/-- the tree model renames every occurrence once: `Formula.rename` on a variable is `renameName` -/
+theorem rename_var {α} (names : List String) (pre suf n : String) :
+    (Formula.var n : Formula α).rename names pre suf = .var (renameName names pre suf n) := by
+  unfold Formula.rename renameName
+  split <;> rfl
+
+/-- **Known finding F-C19-1 (code before the proposed repair).**  A `Variable` object that occurs
+twice in a formula is visited twice by `rename_elementary`; when the table of alternatives has
+both columns `a` and `a_0` the second visit renames it again: the combined variable of index 0
+reads column `a_0_0` (attribute `a_0` of the alternative) instead of `a_0` (attribute `a`).  The
+model above (`Formula.rename`, one renaming per occurrence) is the repaired behaviour. -/
+theorem shared_object_renamed_twice :
+    renameVisited ["a", "a_0"] "" "_0" 2 "a" = "a_0_0" ∧
+    renameVisited ["a", "a_0"] "" "_0" 1 "a" = "a_0" := by decide
+
+/-- without such a clash of names, visiting a shared object several times is harmless -/
+theorem shared_object_harmless (names : List String) (pre suf n : String) (k : Nat)
+    (h : names.contains (renameName names pre suf n) = false) :
+    renameVisited names pre suf (k + 1) n = renameName names pre suf n := by
+  induction k with
+  | zero => rfl
+  | succ k ih =>
+    have step : ∀ m, names.contains m = false → ∀ j, renameVisited names pre suf j m = m := by
+      intro m hm j
+      induction j with
+      | zero => rfl
+      | succ j ihj => simp only [renameVisited, renameName, hm]; simpa [renameName, hm] using ihj
+    show renameVisited names pre suf (k + 1) (renameName names pre suf n) = _
+    exact step _ h (k + 1)
+
 /-! ### full sampling equals the full model (over ℝ) -/
 
 /-- complete sampling: the generated choice set is a permutation of the whole choice set -/
